@@ -63,6 +63,11 @@ class C04Oracle(Oracle):
             pl = opsmod.plan(op, sess.geos)
         except opsmod.PlanInvalid:
             pl = None
+            if out.ok:
+                try:
+                    pl = opsmod.plan(op, sess.geos, lenient_comps=True)
+                except opsmod.PlanInvalid:
+                    pl = None
         # ---- frame: labware not named by the call
         for j in range(nl):
             if j not in named and now_hex[j] != self.prev_hex[j]:
